@@ -692,6 +692,32 @@ class Model:
         ambset = constr.ambset if constr.ambset else self.obj_ambiguity
         if not ambset:
             raise ValueError('The ambiguity set is undefined.')
+        if isinstance(constr, (DecLinConstr, DecRoConstr)):
+            is_equal = (all(constr.sense) if
+                        isinstance(constr.sense, Iterable) else
+                        constr.sense == 1)
+            if is_equal:
+                if isinstance(constr, DecRoConstr):
+                    roaffine = RoAffine(constr.raffine, constr.affine,
+                                        constr.rand_model)
+                    left = DecRoConstr(roaffine, 0,
+                                       constr.event_adapt, constr.ctype)
+                    right = DecRoConstr(-roaffine, 0,
+                                        constr.event_adapt, constr.ctype)
+                else:
+                    left = DecLinConstr(constr.model,
+                                        constr.linear, constr.const,
+                                        np.zeros(constr.linear.shape[0]),
+                                        constr.event_adapt, ctype=constr.ctype)
+                    right = DecLinConstr(constr.model,
+                                         -constr.linear, -constr.const,
+                                         np.zeros(constr.linear.shape[0]),
+                                         constr.event_adapt, ctype=constr.ctype)
+                left.ambset = ambset
+                right.ambset = ambset
+
+                return self.dro_to_roc(left) + self.dro_to_roc(right)
+
         mixed_support = ambset.mix_support(primal=False)
         p = ambset.mix_model.vars[0][:num_scen]
         var_exp_list = ambset.mix_model.vars[1:]
